@@ -191,7 +191,12 @@ pub struct Domain(Vec<Label>);
 
 impl Domain {
     pub fn ends_with(&self, other: &Self) -> bool {
-        self.0.ends_with(&other.0)
+        /* Domain names compare ASCII case insensitively (RFC4343). */
+        self.0.len() >= other.0.len()
+            && self.0[self.0.len() - other.0.len()..]
+                .iter()
+                .zip(other.0.iter())
+                .all(|(a, b)| a.0.eq_ignore_ascii_case(&b.0))
     }
 }
 
